@@ -9,7 +9,7 @@ from rsocket.rsocket_server import RSocketServer
 
 from . import apps, links, vloop
 from .apps import (World, RecSubscriber, RecPublisher, ScriptedHandler, make_payload, pkey, pbrief, MAX_N,
-                   DIR_REQUEST, DIR_RESPONSE, DIR_CHANNEL_UP, _pace)
+                   DIR_REQUEST, DIR_RESPONSE, DIR_CHANNEL_UP, _pace, app_exception)
 
 BIG = 1.0e6   # "never" for keepalive purposes (virtual seconds)
 
@@ -30,11 +30,11 @@ class Driver:
         resp = spec.get('resp') or {}
         fail = resp.get('fail')
         if fail == 'raise-before-await':
-            raise RuntimeError('handler-raises-%s' % iid)
+            raise app_exception(self.world, 'handler-raises-%s' % iid)
         await _pace(resp.get('handler_delay'))
         self.world.log('handler_return', who=handler.side + '-handler', iid=iid)
         if fail == 'raise-after-await':
-            raise RuntimeError('handler-raises-%s' % iid)
+            raise app_exception(self.world, 'handler-raises-%s' % iid)
 
     def make_response(self, handler, iid):
         world = self.world
@@ -58,7 +58,7 @@ class Driver:
                 fut.set_result(p)
             elif out == 'error':
                 world.log('emit_terminal', who=who, iid=iid, dir=DIR_RESPONSE, ev='error')
-                fut.set_exception(RuntimeError('app-error-%d' % iid))
+                fut.set_exception(app_exception(world, 'app-error-%d' % iid))
 
         def on_done(f):
             if f.cancelled():
@@ -70,7 +70,7 @@ class Driver:
         if resp.get('outcome') == 'never':
             return fut
         if resp.get('fail') == 'failed-future':
-            fut.set_exception(RuntimeError('failed-future-%d' % iid))
+            fut.set_exception(app_exception(world, 'failed-future-%d' % iid))
             return fut
         if delay[0] == 'none':
             resolve()
@@ -136,7 +136,7 @@ class Driver:
                             yield one(seq)[0]
                         if terminal == 'error':
                             world.log('emit_terminal', who=who, iid=iid, dir=direction, ev='error')
-                            raise RuntimeError('app-error-%d' % iid)
+                            raise app_exception(world, 'app-error-%d' % iid)
                         world.log('emit_terminal', who=who, iid=iid, dir=direction, ev='complete')
                     finally:
                         rec['finally'] = True
@@ -156,7 +156,7 @@ class Driver:
 
                 obs = R.from_iterable(it())
                 if terminal == 'error':
-                    obs = R.concat(obs, R.throw(RuntimeError('app-error-%d' % iid)))
+                    obs = R.concat(obs, R.throw(app_exception(world, 'app-error-%d' % iid)))
                 src = bp.observable_to_publisher(obs)
             st.setdefault('lib_sources', {})[direction] = src
             return src
@@ -170,7 +170,7 @@ class Driver:
                         yield one(seq)
                     if terminal == 'error':
                         world.log('emit_terminal', who=who, iid=iid, dir=direction, ev='error')
-                        raise RuntimeError('app-error-%d' % iid)
+                        raise app_exception(world, 'app-error-%d' % iid)
                     if terminal != 'flag' or not elems:
                         world.log('emit_terminal', who=who, iid=iid, dir=direction, ev='complete')
                 except GeneratorExit:
@@ -197,7 +197,7 @@ class Driver:
                         yield one(seq)
                     if terminal == 'error':
                         world.log('emit_terminal', who=who, iid=iid, dir=direction, ev='error')
-                        raise RuntimeError('app-error-%d' % iid)
+                        raise app_exception(world, 'app-error-%d' % iid)
                     if terminal != 'flag' or not elems:
                         world.log('emit_terminal', who=who, iid=iid, dir=direction, ev='complete')
                 except GeneratorExit:
@@ -368,6 +368,7 @@ class Pair:
         self.rng = rng
         self.cfg = cfg
         self.world = world or World()
+        self.world.exc_kind = cfg.get('exc_kind', 'runtime')     # type of the exceptions scripted application code raises
         self.driver = driver or Driver(self.world, cfg.get('horizon', 600.0))
         self.link = None
         self.client = None
@@ -482,7 +483,7 @@ def _raising_factory(world, who, iid, direction):
     """A generator factory (application code) that raises instead of returning a generator."""
     def factory():
         world.log('emit_terminal', who=who, iid=iid, dir=direction, ev='error')
-        raise RuntimeError('app-error-%d' % iid)
+        raise app_exception(world, 'app-error-%d' % iid)
     return factory
 
 
